@@ -321,6 +321,10 @@ def run(prog, rep, tier):
     rep.rule('FACT-search-flag', 'values left by a search loop are re-assigned on the not-found path')
     if check_search_flag(prog, rep, ['tenpy/linalg/np_conserved.py', 'tenpy/tools/math.py', 'tenpy/linalg/charges.py']) < 1:
         raise AnalysisError('FACT-search-flag: the block search of speigs not found')
+    rep.rule('FACT-full-unitary', 'svd(full_matrices=True): every charge sector of the legs gets a '
+             'block in U / VH (identity where `a` stores none)')
+    if check_full_unitary(prog, rep) < 2:
+        raise AnalysisError('FACT-full-unitary: the full_matrices branch of _svd_worker not found')
     rep.rule('FACT-triangular', 'typestate of the R factor of qr_li on the CFG')
     check_triangular(prog, rep)
     return rep.finish(
@@ -525,4 +529,56 @@ def check_triangular(prog, rep):
                           key_text(r), r.lineno)
     if n < 2:
         raise AnalysisError('qr_li: returns not found')
+    return n
+
+
+# ------------------------------------------------------------------ FACT-full-unitary
+def check_full_unitary(prog, rep):
+    """FACT-full-unitary: with full_matrices=True the factors are square on the legs of `a`; they
+    are unitary only if EVERY charge sector of the leg has a block. Sectors without a stored block
+    in `a` (zero block; sector left without partner by the total charge) therefore get an identity
+    block: in the full_matrices branch that assembles `U_qdata` / `VH_qdata` from diagonal index
+    pairs there is, for each of the two data lists, a loop over `range(a.legs[k].block_number)`
+    that appends `np.eye(...)` for the indices not present."""
+    m = prog.module(NPC)
+    f = m.func('_svd_worker')
+    n = 0
+    for st in ast.walk(f):
+        if not (isinstance(st, ast.If) and unparse(st.test) == 'full_matrices'):
+            continue
+        diag = {}
+        for a in ast.walk(st):
+            if isinstance(a, ast.Assign) and isinstance(a.value, ast.Call):
+                inner = a.value
+                while isinstance(inner, ast.Call) and isinstance(inner.func, ast.Attribute) and \
+                        inner.func.attr == 'astype':
+                    inner = inner.func.value
+                if isinstance(inner, ast.Call) and (call_name(inner) or '').endswith('stack') and \
+                        inner.args and isinstance(inner.args[0], (ast.List, ast.Tuple)) and \
+                        len(inner.args[0].elts) == 2 and unparse(inner.args[0].elts[0]) == unparse(
+                            inner.args[0].elts[1]):
+                    diag[unparse(a.targets[0])] = unparse(inner.args[0].elts[0])
+        if not diag:
+            continue
+        for tgt, idx in sorted(diag.items()):
+            n += 1
+            data = tgt.replace('_qdata', '_data')
+            ok = False
+            # any way of adding identity blocks to the data list inside this branch counts
+            for c in ast.walk(st):
+                grows = (isinstance(c, ast.Call) and isinstance(c.func, ast.Attribute) and
+                         c.func.attr in ('append', 'extend', 'insert') and
+                         unparse(c.func.value) == data) or (
+                             isinstance(c, ast.AugAssign) and unparse(c.target) == data) or (
+                                 isinstance(c, ast.Assign) and unparse(c.targets[0]) == data)
+                if grows and any(isinstance(x, ast.Call) and (call_name(x) or '').split('.')[-1]
+                                 in ('eye', 'identity') for x in ast.walk(c)):
+                    ok = True
+            rep.instance('FACT-full-unitary', {'factor': tgt, 'index': idx, 'completed': ok})
+            if not ok:
+                rep.violation('FACT-full-unitary', m, '_svd_worker', 'no-identity-blocks:' + tgt,
+                              'full_matrices=True: `%s` pairs the indices `%s` of the stored '
+                              'blocks only; charge sectors of the leg without a stored block get '
+                              'no block in `%s`, so the factor is zero there instead of the '
+                              'identity and is not unitary' % (tgt, idx, data), st.lineno)
     return n
